@@ -13,8 +13,9 @@ PROPS = {
                 claim="Contracts on every function between the bytes and the values: lead-in parse, raw data index (17 "
                       "types, type table checked against the layout table), property parse, typed value reads and "
                       "fromfile are proved for all inputs; chunk readers (contiguous, interleaved), metadata "
-                      "accumulation, the metadata walk, the hierarchy and the eager data read are proved for bounded "
-                      "shapes with symbolic values; a runtime contract compares TdmsFile.read with an independent "
+                      "accumulation and the hierarchy are proved for bounded shapes with symbolic values, the metadata "
+                      "walk and the eager data read for any number of segments / chunks (loop invariants), the "
+                      "contiguous channel reader for any number of data objects; a runtime contract compares TdmsFile.read with an independent "
                       "encoder's model on random small files.",
                 note="composition of the per-function contracts into the end-to-end statement is argued in DESIGN.md, "
                      "not machine-checked; NumPy/struct/utf-8 are assumed contracts (trusted_base)",
@@ -86,8 +87,8 @@ PROPS = {
                 assumptions=["len(b''.join(xs)) = sum(len(x))"]),
     "C09": dict(level="other",
                 claim="read_metadata walk: the stream cursor and segment position fed to every lead-in parse are the "
-                      "data-file position and the index-stream position of segment k in the respective mode (<= 3 "
-                      "segments, offsets symbolic); _read_lead_in clamps with the data file's size in both modes "
+                      "data-file position and the index-stream position of segment k in the respective mode (any "
+                      "number of segments by a while-loop invariant, offsets symbolic); _read_lead_in clamps with the data file's size in both modes "
                       "(proved); index discovery and index-only detection; index-only data reads raise; runtime "
                       "contract with index files from an independent encoder.",
                 note="one known finding (index-only open with unknown-length marker)",
@@ -173,7 +174,7 @@ PROPS = {
                 claim="Typestate contracts with ghost ownership: TdmsReader.__init__ records a path exactly for handles "
                       "it opened, close() closes those and only those, is idempotent, _ensure_open raises afterwards "
                       "and the three data entry points raise RuntimeError; read_metadata closes the owned index stream "
-                      "on normal and exceptional exit; TdmsFile.__init__ closes the reader on every exit unless "
+                      "on normal and exceptional exit (for any number of segments); TdmsFile.__init__ closes the reader on every exit unless "
                       "keep_open (failure injected at each callee); TdmsWriter with-block closes what it opened, never "
                       "caller streams; runtime contract on /proc/self/fd.",
                 note="kernel descriptor table below contract level; outside the statement: TdmsFile.open raising, "
